@@ -146,4 +146,59 @@ func registerSignatures() {
 		return a != nil && a["site"] == "Object.getOwnPropertyNames argument" && a["want"] == "TypeError" && m.Observed == "returns" &&
 			(strings.HasSuffix(m.Key, "#script") || strings.HasSuffix(m.Key, "#text"))
 	})
+	// eval / Function code with an invalid assignment target: SyntaxError instead of ReferenceError
+	engine.RegisterSignature("c19-invalid-lhs-syntaxerror", func(m *engine.Mismatch) bool {
+		a := m.Aux
+		if a == nil || !strings.HasPrefix(a["group"], "invalid-lhs") {
+			return false
+		}
+		switch {
+		case strings.HasSuffix(m.Key, "#script"):
+			f := strings.SplitN(m.Observed, "|", 9)
+			return len(f) == 9 && strings.Join(f[:8], "|") == "error|false|false|true|SyntaxError|string|true|true" &&
+				strings.HasPrefix(f[8], "SyntaxError: ") && strings.Contains(f[8], "invalid left-hand side in assignment") &&
+				strings.HasPrefix(m.Expected, "error|true|true|true|ReferenceError|string|true|true|")
+		case strings.HasSuffix(m.Key, "#text"):
+			return m.Expected == "ReferenceError: <message>" && strings.HasPrefix(m.Observed, "SyntaxError: ") &&
+				strings.Contains(m.Observed, "invalid left-hand side in assignment")
+		}
+		return false
+	})
+	// a thrown value whose ToString throws escapes Run as a Go panic
+	engine.RegisterSignature("c19-unprintable-thrown-value-panics", func(m *engine.Mismatch) bool {
+		a := m.Aux
+		return a != nil && a["group"] == "throw-value" && a["unprintable"] == "1" && strings.HasSuffix(m.Key, "#text") &&
+			m.Expected == "Run returns an error" && strings.HasPrefix(m.Observed, "Go panic: ")
+	})
+	// base[key] with an undefined/null base converts an object key before raising the TypeError
+	engine.RegisterSignature("c19-bracket-key-converted-first", func(m *engine.Mismatch) bool {
+		a := m.Aux
+		if a == nil || a["group"] != "nested" || !strings.Contains(a["construct"], "[tk]") {
+			return false
+		}
+		switch {
+		case strings.HasSuffix(m.Key, "#text"):
+			return m.Expected == "TypeError: <message>" && m.Observed == "RangeError: conv"
+		case strings.HasSuffix(m.Key, "#script"):
+			return strings.HasPrefix(m.Expected, "error|true|true|true|TypeError|string|true|true|") &&
+				m.Observed == "error|false|false|true|RangeError|string|true|true|RangeError: conv"
+		}
+		return false
+	})
+	latticeReturns := func(name, site string, expr func(string) bool) {
+		engine.RegisterSignature(name, func(m *engine.Mismatch) bool {
+			a := m.Aux
+			return a != nil && a["site"] == site && a["want"] != "" && expr(a["expr"]) && m.Observed == "returns" &&
+				(strings.HasSuffix(m.Key, "#script") || strings.HasSuffix(m.Key, "#text"))
+		})
+	}
+	any := func(string) bool { return true }
+	// RegExp.prototype.toString is generic; Error.prototype.toString accepts primitives
+	latticeReturns("c19-regexp-tostring-generic", "RegExp.prototype.toString receiver", any)
+	latticeReturns("c19-error-tostring-primitive", "Error.prototype.toString receiver", any)
+	// Function constructor: parameters and body are only parsed spliced into one text, so a comment
+	// opened in the parameters or a body that closes the wrapper early is accepted
+	latticeReturns("c19-function-ctor-spliced-parse", "Function constructor parameters", func(e string) bool {
+		return strings.Contains(e, "/*") || strings.Contains(e, `"}); (function(){"`) || strings.Contains(e, `"}, function(){"`)
+	})
 }
